@@ -91,6 +91,19 @@ func jEncoder(t *sx, seed uint64, cfg int) {
 		}
 		oerr := oe.Encode(v.Interface())
 		serr := se.Encode(v.Interface())
+		// an Encoder is used for a STREAM of values: one to three more calls on the same Encoders (the indent buffer
+		// and the output of earlier calls must not come back), with a change of settings between calls now and then
+		for k := uint64(1); k <= seed%4 && oerr == nil && serr == nil; k++ {
+			if (seed>>3)%3 == 0 {
+				oe.SetIndent(prefixes[int(k)%3], indents[int(seed>>5)%3])
+				se.SetIndent(prefixes[int(k)%3], indents[int(seed>>5)%3])
+				oe.SetEscapeHTML(k%2 == 0)
+				se.SetEscapeHTML(k%2 == 0)
+			}
+			w := jValue(t, seed+k, 0)
+			oerr = oe.Encode(w.Interface())
+			serr = se.Encode(w.Interface())
+		}
 		orc = outObs(ob.Bytes(), oerr)
 		return outObs(sb.Bytes(), serr)
 	})
@@ -123,7 +136,7 @@ func jEscape(s []byte) {
 var c01Fixed = []string{
 	"(struct (f A ,string (ptr int)))",
 	"(struct (f A ,string str) (f B ,string bool) (f C ,string f64) (f D ,string u8))",
-	"(map TextKey int)", "(map IntKey str)", "(map StructKey int)", "(map (ptr int) int)",
+	"(map UKey int)", "(struct (f M - (map UKey str)) (f N - namedany))", "(slice namedany)", "(map TextKey int)", "(map IntKey str)", "(map StructKey int)", "(map (ptr int) int)",
 	"(struct (e EmbA) (e EmbB))", "(struct (e EmbA) (f X - int))", "(struct (e EmbC) (e EmbD))", "(struct (e (ptr EmbA)) (e EmbD))",
 	"(arr 1 (ptr int))", "(struct (f A - (arr 1 (ptr int))))", "(arr 1 (map str int))",
 	"(struct (f A - (struct (f B - (ptr int)))))",
@@ -133,9 +146,16 @@ var c01Fixed = []string{
 	"(struct (f A ,omitempty (arr 0 int)) (f B ,omitempty (arr 2 int)) (f C ,omitempty (struct)) (f D ,omitempty Time))",
 	"(map str any)", "(slice any)", "any", "(ptr (ptr (ptr int)))", "bytes", "(slice u8)", "(arr 4 u8)", "(slice i8)",
 	"(map str (map str (slice str)))", "(map str RawMessage)", "(map str bool)", "(map str str)", "(map str (slice str))",
+	// pointer-receiver marshalers in array elements: reached by value (not addressable) or through a pointer (addressable)
+	"(arr 2 PtrMarshaler)", "(arr 1 PtrText)", "(arr 2 (arr 1 PtrMarshaler))", "(map str (arr 1 PtrMarshaler))", "(struct (f A - (arr 2 PtrMarshaler)) (f T - (arr 1 PtrText)))",
+	"(slice (arr 1 PtrMarshaler))", "(ptr (arr 2 PtrText))",
+	// pointer-shaped types nested two or more levels deep (stored directly in the interface word)
+	"(struct (f In - (struct (f P - (ptr int)))))", "(struct (f A - (arr 1 (ptr str))))", "(struct (f By - (struct (f Name - (map str int)))))", "(arr 1 (struct (f P - (ptr int))))",
+	"(struct (f W - (struct (f V - (struct (f P - (ptr (struct (f X - int) (f S - str)))))))))", "(map str (struct (f In - (struct (f P - (ptr int))))))", "(slice any)",
 }
 
 func c01() {
+	jEncSeqAll() // failed encodes followed by other encodes (pooled scratch state)
 	g := &jgen{maxDepth: 3}
 	nT, nV := 500, 5
 	if *tier == "thorough" {
